@@ -177,7 +177,9 @@ Section P2.
 
   Lemma memo_expr (e : expr) : ok_all (expr_occs V e) -> memo (texpr V dstate (dict_prior V cf)) (emap V) (expr_occs V) e.
   Proof.
-    induction e as [p sp|v|o l IHl r IHr]; intro H.
+    induction e as [p sp|v|o l IHl r IHr|o x IHx]; intro H; [| | |
+      intros st I; destruct (IHx H st I) as [st' [E R]]; exists st'; cbn [texpr emap expr_occs]; rewrite E; cbn [bind fst snd];
+      split; [reflexivity|exact R]].
     - intros st I. destruct (memo_prior p sp (H p sp (or_introl eq_refl)) st I) as [st' [E R]].
       exists st'. cbn [fst snd] in E. cbn [texpr emap expr_occs]. rewrite E. cbn [bind fst snd].
       split; [destruct (look st' p sp); reflexivity|exact R].
